@@ -72,8 +72,13 @@ JUNK_VALUES_SURROGATE = ["\udc80", {"signature": "\ud800"}]
 
 
 class Keys:
-    def __init__(self, nk: int, run_seed: int = 0, offset: int = 0):
+    def __init__(self, nk: int, run_seed: int = 0, offset: int = 0, related: bool = False):
         self.seeds = {k: crypto.seed_for(k + offset, run_seed) for k in range(1, nk + 1)}
+        if related and nk >= 2:
+            # keys 1 and 2 share the last 32 bits of their public value, keys 3 and 4 (if there) the first 32 bits
+            self.seeds[1], self.seeds[2] = crypto.related_seeds("suffix")
+            if nk >= 4:
+                self.seeds[3], self.seeds[4] = crypto.related_seeds("prefix")
         if nk == 1:
             self.seeds[0] = crypto.seed_for(offset + 999983, run_seed)      # a one-key world still needs "another key" for copied signatures
         self.pub = {k: crypto.fast_public(s).hex() for k, s in self.seeds.items()}
